@@ -1,9 +1,10 @@
 (* Top-level entry points of the chain model as the harness calls them, and the rendering of a
    constructed chain to a `value` for comparison with what the implementation exposes. *)
 From Coq Require Import String Ascii List Bool Arith ZArith.
-From TC Require Import PyStr Value Dict Placeholder Repr Param Names Config Key Chain Sha256.
+From TC Require Import PyStr Value Dict Placeholder Repr Param Names Config Key Chain Sha256 Eval.
 Import ListNotations.
 
+Definition world_t_note := tt.
 Definition world :=
   (files * list tclass * list (str * list nat) * list str * option (list (str * str)) * option ctxsrc)%type.
 
@@ -80,3 +81,16 @@ Definition render_build (r : res (rchain * list obj * registry)) : value :=
   end.
 
 Definition sha_key : str -> str := sha256_hex.
+
+(* (task name, result path, run-info path, log path) of every task of a chain, relative to the data dir *)
+Definition golden_paths (w : world) (base : str + (str * cfgdata)) : option (list (str * str * str * str)) :=
+  let '(_, classes, _, _, _, _) := w in
+  match build sha_key w base [] [] with
+  | inl (rc, objs, _) =>
+      Some (flat_map (fun t => match nth_error objs (snd t) with
+                               | Some o => match nth_error classes (o_cls o) with
+                                           | Some tc => [(fst t, Eval.result_path tc o, Eval.info_path tc o, Eval.log_path tc o)]
+                                           | None => [] end
+                               | None => [] end) (rc_tasks rc))
+  | inr _ => None
+  end.
